@@ -9,8 +9,9 @@ SPEC = dict(
     sanitize=True,
     # '' Counted/unsigned, int, move-only, signed-char index (max_size 127: capacity clamp + growth exception),
     # pointer wrappers, then the aliasing streams (finding F3): registry-detected, and the raw ASan stream
-    modes=["", "int", "moveonly", "small", "ptr", "alias", "alias_asan"],
-    n=dict(quick=4000, thorough=150000),
+    # alias_emplace*: the same for push_back(T&&) / emplace_back / emplace (fixed by f70ab3a8) — regression streams
+    modes=["", "int", "moveonly", "small", "ptr", "alias", "alias_asan", "alias_emplace", "alias_emplace_asan"],
+    n=dict(quick=3000, thorough=110000),
     rtol=0.0, atol=0.0,
     rule="operation sequences (cases of 30..280 operations over three arrays / four pointers per family) generated "
          "by the Lean driver from VERIF_SEED; legality and safety of element-reference arguments decided by the "
